@@ -132,6 +132,17 @@ CHECKS = {
 }
 
 
+# checks contributed by separate modules (world / system data / meta table / par-seq)
+import importlib
+for _m in ["props_world", "props_sysdata", "props_meta", "props_parseq"]:
+    try:
+        _mod = importlib.import_module(_m)
+    except ModuleNotFoundError:
+        continue
+    CHECKS.update(_mod.CHECKS)
+    EXTRA_MODULES += list(getattr(_mod, "MODULES", []))
+
+
 def replay(ctx, path):
     """Re-validate a saved replay trace with the property's invariants."""
     invs = TRACE_INVS.get(ctx.prop, [])
